@@ -1,8 +1,6 @@
-(* C18 — lemmas (work in progress) *)
-From Coq Require Import List ZArith QArith Bool Arith Lia.
-From PV Require Import C18.Model C18.Spec.
-Import ListNotations.
-Local Open Scope Q_scope.
-
-Lemma qsum_nil : qsum [] = 0.
-Proof. reflexivity. Qed.
+(* C18 — the lemmas behind Properties.v, collected from the per-topic files:
+     QLemmas (sums), Tensor (row-major tensors), Stats (population statistics),
+     ProofsMvn (accumulate / store / mean_var_norm), ProofsPad + ProofsDeltas (delta features),
+     ProofsLayout (N-dimensional layout of feat_deltas), ProofsReturn (returns). *)
+From PV Require Export C18.Model C18.Spec C18.QLemmas C18.Tensor C18.Stats
+  C18.ProofsMvn C18.ProofsPad C18.ProofsDeltas C18.ProofsReturn.
